@@ -19,6 +19,7 @@ def sh(cmd, **kw):
 
 def main():
     src, sid, prop = sys.argv[1:4]
+    src = os.path.abspath(src)
     props = [prop] + sys.argv[4:]
     d = tempfile.mkdtemp(prefix="seeded-")
     w = os.path.join(d, "w")
@@ -52,7 +53,8 @@ def main():
         out = os.path.join(VERIF, "seeded", sid)
         os.makedirs(out, exist_ok=True)
         for name in ("patch.diff", "demo.py", "notes.md"):
-            shutil.copy(os.path.join(src, name), os.path.join(out, name))
+            if os.path.abspath(os.path.join(src, name)) != os.path.abspath(os.path.join(out, name)):
+                shutil.copy(os.path.join(src, name), os.path.join(out, name))
         notes = open(os.path.join(src, "notes.md")).read()
         meta["needs_to_manifest"] = notes[:1500]
         old = {}
